@@ -353,6 +353,17 @@ func (p *Path) specIntrinsic(n string, args []Value) (Value, bool) {
 			return mkBig(intLitValue(lit.S)), true
 		}
 		return mkUF("intlitval", SInt, lit), true
+	case "specStringLitIs":
+		// structural forms: `val` when it can be back-quoted, strconv.Quote(val) otherwise (or always)
+		lit, val := args[0].(*Term), args[1].(*Term)
+		raw := mkAnd(mkEq(lit, mkConcat(mkStr("`"), val, mkStr("`"))), canbq(val))
+		return mkOr(raw, mkEq(lit, goquote(val))), true
+	case "specTagLookup":
+		// the conventional-format parser is trusted (DESIGN C17): symbolically the obligation is
+		// that the literal denotes the conventional tag text; natively reflect.StructTag decides
+		lit, val := args[0].(*Term), args[1].(*Term)
+		raw := mkAnd(mkEq(lit, mkConcat(mkStr("`"), val, mkStr("`"))), canbq(val))
+		return mkOr(raw, mkEq(lit, goquote(val))), true
 	case "specQuote":
 		return goquote(args[0].(*Term)), true
 	case "specGofmt":
@@ -447,6 +458,17 @@ func init() {
 			return "", false
 		}
 		return "s:" + u, ok
+	}
+	specNative["taglookup"] = func(a []string) (string, bool) {
+		lit, ok1 := modelStr(a[0])
+		key, ok2 := modelStr(a[1])
+		val, ok3 := modelStr(a[2])
+		u, err := strconv.Unquote(lit)
+		if err != nil {
+			return "false", ok1 && ok2 && ok3
+		}
+		got, ok := reflect.StructTag(u).Lookup(key)
+		return strconv.FormatBool(ok && got == val), ok1 && ok2 && ok3
 	}
 	specNative["intlitval"] = func(a []string) (string, bool) {
 		s, ok := modelStr(a[0])
